@@ -183,3 +183,26 @@ Example ex_volume :
   (column_volume 100 [10; 20; 30] 7 85 = Some (0 + (15 * 7 + (30 * 7 + 0)))) /\
   (refine_ths 3 [false; true; false] [10; 20; 30] = [10; 20 / 3; 20 / 3; 20 / 3; 30]).
 Proof. split; [repeat constructor; reflexivity|split; vm_compute; reflexivity]. Qed.
+
+(** ** a whole subdivision: the new columns inherit the parent's surface [s]; when their areas
+    add up to the parent's, so do their rock volumes (any number of new columns) *)
+Fixpoint osum (l : list (option Q)) : option Q :=
+  match l with [] => Some 0 | x :: r => oadd x (osum r) end.
+Lemma children_volume_conserved_ T ths s (areas : list Q) A v :
+  all_pos ths -> column_volume T ths A s = Some v -> qsum areas == A ->
+  oeq (osum (map (fun a => column_volume T ths a s) areas)) v.
+Proof.
+  intros Hp Hv Hs.
+  pose proof (column_volume_closed T ths A s Hp) as E. rewrite Hv in E. cbn [oeq] in E.
+  set (K := match ths with [] => 0 | _ => pos_part (s - (T - qsum ths)) end).
+  assert (EK : forall a, oeq (column_volume T ths a s) (K * a)).
+  { intro a. eapply oeq_compat; [|apply column_volume_closed; auto]. unfold K. destruct ths; ring. }
+  assert (H : oeq (osum (map (fun a => column_volume T ths a s) areas)) (K * qsum areas)).
+  { clear Hs. induction areas as [|a r IH]; cbn [map osum qsum].
+    - cbn [oeq]. ring.
+    - eapply oeq_compat; [|apply oadd_oeq; [apply EK|apply IH]]. ring. }
+  eapply oeq_compat; [|exact H]. rewrite Hs, E. unfold K. destruct ths; ring.
+Qed.
+Example ex_children_volume :
+  oeq (osum (map (fun a => column_volume 100 [10; 20; 30] a 85) [3; 2; 2])) (0 + (15 * 7 + (30 * 7 + 0))).
+Proof. vm_compute. reflexivity. Qed.
